@@ -417,6 +417,7 @@ func (x *Exec) Apply(st Step) error {
 		// "env:<which>:<text>": a msg resume that carries a changed environment
 		//   urns / none  the root's environment with that redaction policy
 		//   alt          other date/time formats, timezone and number format
+		//   far          the root's environment in a timezone 14 hours ahead of UTC
 		parts := strings.SplitN(st.Ev, ":", 3)
 		ej := J{}
 		base := x.Root.Env
@@ -429,6 +430,8 @@ func (x *Exec) Apply(st Step) error {
 		switch parts[1] {
 		case "urns", "none":
 			ej["redaction_policy"] = parts[1]
+		case "far":
+			ej["timezone"] = "Pacific/Kiritimati" // UTC+14: midday UTC is already the next day
 		case "alt":
 			ej["date_format"] = "DD-MM-YYYY"
 			ej["time_format"] = "tt:mm:ss"
